@@ -1,6 +1,10 @@
 """C01 - table contents always equal what the statement history implies."""
+import json
+import random
+
 import vlib
 import storelib
+import semlib
 
 CFGS = {
     "quick": [("c01-a", dict(MaxStmts=4, MaxRows=2, MaxFlush=1), None),
@@ -17,11 +21,114 @@ CFGS = {
 }
 
 
+NHIST = {"quick": 2400, "thorough": 40000}
+FROM5 = [dict(tbl="t5", alias="", jt="", on=[])]
+
+
+def dml_histories(ctx, cov):
+    """Statement histories over the full WHERE language, judged by TLC (SqlSem!HistoryOK): a table enumerated by TLC from
+    SqlSemGen.tla, then one to three INSERT / UPDATE / DELETE statements assembled from its component sets (Dmls5 x Wheres5),
+    each followed by SELECT *; every third statement is followed by a flush and the eviction of every clean page, a third of
+    the histories run at page capacities 3/3, a third on tables with a past (deleted rows among the live ones)."""
+    binary = vlib.build_harness(ctx, "sem")
+    sets = semlib.gen_sets(ctx)
+    rng = random.Random(ctx.seed * 7919 + 3)
+    fams = [([t for t in sets["tables5"] if t["rows"]], sets["wheres5"], 6),
+            (sets["tablesnull5"], sets["wheresnull5"], 2), (sets["tableskw5"], sets["whereskw5"], 1)]
+    dmls, bad_wheres, rows5 = sets["dmls5"], sets["wheresbad5"], sets["rows5"]
+    template = rows5[0]
+    cases = []
+    # every assignment list and every WHERE at least once as the first statement of a history, then random histories
+    firsts = [(d, w) for d in range(len(dmls)) for w in (None,)] + [(None, w) for w in range(len(sets["wheres5"]))]
+    weights = [f[2] for f in fams]
+    n = 0
+    while len(cases) < NHIST[ctx.tier]:
+        tables, wheres, _ = fams[0] if n < len(firsts) else rng.choices(fams, weights)[0]
+        table = rng.choice(tables)
+        ds = []
+        for step in range(rng.randrange(1, 4)):
+            if step == 0 and n < len(firsts):
+                di, wi = firsts[n]
+                d = dmls[di] if di is not None else rng.choice(dmls)
+                w = wheres[wi] if wi is not None else rng.choice(wheres)
+            else:
+                d, w = rng.choice(dmls), rng.choice(wheres)
+                if rng.random() < 0.08:
+                    w = rng.choice(bad_wheres)
+            if step > 0 and rng.random() < 0.2:
+                ds.append(dict(k="insert", tbl="t5", where=[], set=[], row=rng.choice(rows5)))
+            else:
+                ds.append(dict(k=d["k"], tbl="t5", where=w, set=d["set"], row=[]))
+        cases.append(dict(db={"t5": table}, ds=ds, caps=([3, 3] if n % 3 == 1 else []), style=n))
+        n += 1
+    reqs = []
+    for i, c in enumerate(cases):
+        db = semlib.with_history(rng, c["db"], template) if i % 3 == 2 else c["db"]
+        qs = [{"from": FROM5, "where": d["where"], "list": [], "group": [], "order": [], "limit": -1, "offset": -1, "style": c["style"] + j,
+               "dml": d["k"], "set": d["set"], "row": d["row"]} for j, d in enumerate(c["ds"])]
+        reqs.append(dict(db=db, qs=qs, caps=c["caps"], _i=i))
+
+    def on_result(req, resp):
+        c = cases[req["_i"]]
+        if resp.get("fatal"):
+            c["died"] = "process died: " + (resp.get("viol") or [""])[0]
+        elif resp.get("setup") == "PANIC":
+            c["died"] = "while the table was loaded: " + (resp["res"][0].get("panic") or "hang")
+        elif resp.get("setup"):
+            raise vlib.Undecided("sem harness could not load the table: %s" % resp["setup"])
+        else:
+            c["raw"] = resp.get("res") or []
+    pool = vlib.WorkerPool(ctx, binary)
+    try:
+        pool.run_all(reqs, on_result, chunk=1)
+    finally:
+        pool.close()
+    judged, stmts, changed, refused = [], 0, 0, 0
+    for c in cases:
+        raw = c.get("raw") or []
+        crash = c.get("died") or next((("the engine panicked: " + r["panic"].splitlines()[0]) if r.get("panic") else "the engine hung"
+                                       for r in raw if r.get("panic") or r.get("hang")), None)
+        if crash or len(raw) != len(c["ds"]):
+            vlib.report_violation(ctx, dict(kind="dml-history", db=c["db"], ds=c["ds"], sql=[r.get("sql") for r in raw],
+                                            detail=[crash or "the history was not run to its end"]), signature="dml|" + (crash or "short")[:80])
+            continue
+        c["hres"] = [dict(err=bool(r["err"]), rows=r["rows"]) for r in raw]
+        judged.append(c)
+        stmts += len(raw)
+        prev = c["db"]["t5"]["rows"]
+        for r in raw:
+            refused += 1 if r["err"] else 0
+            changed += 1 if r["rows"] != prev else 0
+            prev = r["rows"]
+    if len(judged) < len(cases) // 2 or changed < stmts // 10:
+        raise vlib.Undecided("statement histories: %d of %d judged, %d of %d statements changed the table - too few to mean anything" % (len(judged), len(cases), changed, stmts))
+    bad = semlib.judge_histories(ctx, judged, "c01-dml")
+    seen = set()
+    for i, at in bad:
+        c = judged[i]
+        d = c["ds"][at - 1] if 0 < at <= len(c["ds"]) else {}
+        r = c["raw"][at - 1] if 0 < at <= len(c["raw"]) else {}
+        sig = "dml|%s|w%s|s%s" % (d.get("k"), "x".join(str(len(x)) for x in d.get("where") or []), ",".join(a["c"] for a in d.get("set") or []))
+        if sig in seen:
+            continue
+        seen.add(sig)
+        vlib.report_violation(ctx, dict(kind="dml-history", db=c["db"], ds=c["ds"], sql=[x.get("sql") for x in c["raw"]], results=c["hres"], caps=c["caps"],
+                                        detail=["statement %d of the history (`%s`) is answered wrongly: rejected by HistoryOK (SqlSem.tla)%s"
+                                                % (at, r.get("sql"), (": engine error `%s`" % r.get("msg")) if r.get("err") else "")]), signature=sig)
+    cov["dml_histories"] = dict(histories=len(judged), statements=stmts, statements_that_changed_the_table=changed, refused_statements=refused,
+                                rejected_by_tlc=len(bad),
+                                rule="table from SqlSemGen!Tables5 / TablesNull5 / TablesKw5, 1-3 statements from Dmls5 x Wheres5 (+ WheresBad5, inserted rows); "
+                                     "every assignment list and every WHERE at least once; after each statement SELECT * is compared by TLC with SqlSem!DmlAfter",
+                                sample=dict(sql=[x.get("sql") for x in judged[0]["raw"]], rows_after=judged[0]["hres"][-1]["rows"]) if judged else None)
+    cov["traces_validated_against_impl"] += len(judged)
+
+
 def run(ctx):
     binary = vlib.build_harness(ctx, "store")
     if ctx.replay:
         return storelib.replay_file(ctx, binary, ctx.replay)
     cov = storelib.new_cov()
+    dml_histories(ctx, cov)
     pool = vlib.WorkerPool(ctx, binary)
     try:
         for name, over, sample in CFGS[ctx.tier]:
